@@ -64,7 +64,7 @@ func (cc *checkCtx) concordance(keys map[string]bool) (runs, mismatches int, not
 			model := o.Res.Model
 			if v, ok := model["(blen ghost0.in)"]; ok {
 				if n, ok := parseBVModel(v); !ok || n.Cmp(big.NewInt(40)) > 0 {
-					q := m.queryOf[o]
+					q := m.fullQuery(m.smtRef, o)
 					if i := strings.LastIndex(q, "(check-sat)"); i >= 0 {
 						q2 := q[:i] + "(assert (bvule (blen ghost0.in) #x0000000000000028))\n" + q[i:]
 						if r := cc.s.smt.solve(q2, o.Name()+"#small"); r.Status == "sat" {
@@ -219,7 +219,7 @@ func (cc *checkCtx) concordCheck(o *Obligation, rio *replayIO, out string) (bool
 		return false, "the real code panicked on a path the engine considers panic-free: " + grepLine(out, "GOVC-PANIC")
 	}
 	fixes := cc.resultFixes(o, rio, out)
-	q := cc.s.m.queryOf[o]
+	q := cc.s.m.fullQuery(cc.s.smt, o)
 	i := strings.LastIndex(q, "(check-sat)")
 	if i < 0 {
 		return false, "no query"
